@@ -199,6 +199,20 @@ def build(cfg, bake=True):
     return radi
 
 
+def materials_in_force(radi, cfg):
+    """None if every wall of an object built by [build] simulates pi x the table it was given; else a text"""
+    din, dout = directions(cfg)
+    tabs = np.array(radi._brdf)
+    idx = np.array(radi._brdf_index)
+    for w in range(len(idx)):
+        want = wall_table(cfg, min(w, 5), din.csize, dout.csize) * np.pi
+        got = np.real(np.asarray(tabs[idx[w]]))
+        if got.shape != want.shape or np.any(np.abs(got - want) > 1e-12 * np.abs(want) + 1e-300):
+            return ("wall %d simulates a table with mean %.6g, pi x the given table has mean %.6g"
+                    % (w, float(np.mean(got)), float(np.mean(want))))
+    return None
+
+
 # --------------------------------------------------------------------------
 # model session
 # --------------------------------------------------------------------------
